@@ -42,6 +42,7 @@ type learnerRecord struct {
 	NextLeaner int           // learner yielded by the terminal call, or -1
 	CreatedAt  int           // step number
 	TerminalAt int
+	checked    bool // terminal call compared with the history (model.checkLearnerOutcomes)
 }
 
 type selectorRecord struct {
